@@ -83,7 +83,9 @@ def run_impl(case: dict) -> dict:
     out["cartesian"] = float(df["cartesian"].iloc[0]) if len(df) else None
     out["match_keys"] = [int(r["match_key"]) for r in df.to_dict(orient="records")]
     out["split_as_assumed"] = sorted(x.strip() for x in out["equi"].split(" AND ") if x.strip()) == expected_equi_strings(case["rule"]["ast"])
-    if equi_conjuncts(case["rule"]["ast"])[0] and out["split_as_assumed"]:
+    out["atoms"] = reported_atoms(out["equi"])
+    out["split_mismatch"] = split_mismatch(case, out["equi"], out["filter"])
+    if out["atoms"]:
         api = impl.make_api(case["engine"], threads=2)
         top = n_largest_blocks(table_or_tables=frames(case), blocking_rule=rule_arg(case["rule"]), link_type=case["link_type"], db_api=api, n_largest=case["n"]).as_record_dict()
         out["nlargest"] = [[[r[k] for k in sorted(r) if k.startswith("key_")], int(r["count_l"]), int(r["count_r"]), int(r["block_count"])] for r in top]
@@ -106,6 +108,67 @@ def equi_conjuncts(ast):
     for c in conjuncts(ast):
         (eq if c[0] in ("eq", "sub") else flt).append(c)
     return eq, flt
+
+
+def atom_string(a):
+    if a[0] == "eq":
+        return f"l.{a[1]} = r.{a[2]}"
+    return f"SUBSTRING(l.{a[1]}, 1, 1) = SUBSTRING(r.{a[1]}, 1, 1)"
+
+
+def reported_atoms(equi: str):
+    """The equi-join keys the analysis says it identified (which equality conjuncts become keys is sqlglot's join_condition's
+    business: e.g. of two keys on the same right-hand column it keeps one and leaves the other to the filter).  None = not parsable."""
+    import re
+
+    out = []
+    for piece in (x.strip() for x in equi.split(" AND ") if x.strip()):
+        m = re.fullmatch(r"l\.(\w+) = r\.(\w+)", piece)
+        if m:
+            out.append(("eq", m.group(1), m.group(2)))
+            continue
+        m = re.fullmatch(r"SUBSTRING\(l\.(\w+), 1, 1\) = SUBSTRING\(r\.(\w+), 1, 1\)", piece)
+        if m and m.group(1) == m.group(2):
+            out.append(("sub", m.group(1)))
+            continue
+        return None
+    return out
+
+
+def split_mismatch(case, equi: str, flt: str):
+    """Is the reported split a split of THIS rule?  The rule's SQL and `(<reported equi conditions>) AND (<reported filter conditions>)`
+    are evaluated by DuckDB (as plain SQL text, independently of Splink) on every ordered pair of the case's records; returns the
+    number of pairs on which one is TRUE and the other is not, or a string if the reported text does not parse."""
+    import duckdb
+
+    from harness import impl
+
+    recs = c01.records(case)
+    if not recs:
+        return 0
+    rows = [{"a": r["a"], "b": r["b"], "c": r["c"]} for r in recs]
+    df = impl.typed_frame(rows, {"a": "str", "b": "str", "c": "int"})  # noqa: F841  (read by duckdb through the variable name)
+    con = duckdb.connect(":memory:")
+    try:
+        con.register("t", df)
+        rule = bg.sql_top(case["rule"]["ast"]) if case["rule"].get("top_unparenthesised") else bg.sql(case["rule"]["ast"])
+        parts = [f"({x})" for x in (equi, flt) if x and x.strip()]
+        split = " AND ".join(parts) if parts else "TRUE"
+        q = f"select count(*) from t as l cross join t as r where coalesce(({rule}), false) <> coalesce(({split}), false)"
+        return int(con.execute(q).fetchone()[0])
+    except duckdb.Error as e:
+        return f"not evaluable: {str(e)[:200]}"
+    finally:
+        con.close()
+
+
+def split_problem(case, r):
+    """The reported split must be a split of this rule (see split_mismatch)."""
+    sm = r.get("split_mismatch")
+    if isinstance(sm, int) and sm > 0:
+        return (f"the reported equi-join conditions ({r['equi']!r}) AND filter conditions ({r.get('filter')!r}) are not the rule: they differ from it on "
+                f"{sm} ordered record pairs, so the analysis counts another rule than the one blocking applies")
+    return None
 
 
 def expected_equi_strings(ast):
@@ -136,12 +199,13 @@ def backend_lt(case):
     return c01.backend_link_type(case)
 
 
-def model_request(case):
+def model_request(case, atoms=None):
     recs = c01.records(case)
     multi = len(case["tables"]) > 1
     keys = bg.ranks([bg.composite_key(r, multi) for r in recs])
     sds = bg.ranks([r["source_dataset"] for r in recs])
-    atoms, _ = equi_conjuncts(case["rule"]["ast"])
+    if atoms is None:
+        atoms, _ = equi_conjuncts(case["rule"]["ast"])
     codes: dict = {}
 
     def code(k):
@@ -163,7 +227,7 @@ def model_request(case):
     }, codes
 
 
-def oracle(case):
+def oracle(case, atoms=None):
     """Brute force, independent of the Lean model."""
     recs = c01.records(case)
     multi = len(case["tables"]) > 1
@@ -180,7 +244,8 @@ def oracle(case):
         return lt != "link_only" or recs[l]["source_dataset"] != recs[r]["source_dataset"]
 
     post = sum(1 for l in range(m) for r in range(m) if adm(l, r) and bg.ev(case["rule"]["ast"], recs[l], recs[r]) is True)
-    atoms, _ = equi_conjuncts(case["rule"]["ast"])
+    if atoms is None:
+        atoms, _ = equi_conjuncts(case["rule"]["ast"])
     if lt == "two_dataset_link_only":
         L = [i for i in range(m) if recs[i]["source_dataset"] == first]
         R = [i for i in range(m) if recs[i]["source_dataset"] != first]
@@ -223,7 +288,10 @@ def oracle(case):
 
 
 def verdict(case, r):
-    o = oracle(case)
+    sp = split_problem(case, r)
+    if sp:
+        return sp
+    o = oracle(case, r.get("atoms"))
     if r["post"] != o["post"]:
         return f"post-filter count {r['post']} but blocking scores {o['post']} pairs for this rule and link type"
     if r["pre"] != o["pre"]:
@@ -272,6 +340,11 @@ def gen_case(rng: random.Random, engine=None):
         parts = []
         for c in cols:
             parts.append(("sub", c) if c != "c" and rng.random() < 0.25 else ("eq", c, c))
+        if rng.random() < 0.3:
+            # a cross-column key; with 50% the SAME left column as another key but a different right column
+            # (l.a = r.a AND l.a = r.b): both are equi-join keys and both must be kept
+            x = rng.choice([p_[1] for p_ in parts if p_[0] == "eq" and p_[1] in ("a", "b")] or ["a"]) if rng.random() < 0.5 else rng.choice(["a", "b"])
+            parts.append(("eq", x, "b" if x == "a" else "a"))
         if asym and rng.random() < 0.6:
             parts.append(rng.choice([("lt", "c"), ("lit", "l", "a", "x"), ("lit", "r", "b", "y")]))
         if rng.random() < 0.4:
@@ -311,8 +384,10 @@ def normalise(case):
 
 
 def compare(ctx, cases, drv):
-    reqs = [model_request(c)[0] for c in cases]
     res = core.pmap(run_impl_safe, cases, chunksize=2)
+    # the model is asked about the equi-join keys the real code says it identified (sqlglot's choice; checked to be a split of
+    # the rule by split_problem), so that no case has to be excluded because of that choice
+    reqs = [model_request(c, [tuple(a) for a in r["atoms"]] if isinstance(r, dict) and r.get("atoms") is not None else None)[0] for c, r in zip(cases, res)]
     mres = drv.pbatch(reqs)
     problems = []
     for c, req, r, m in zip(cases, reqs, res, mres):
@@ -329,9 +404,10 @@ def compare(ctx, cases, drv):
             continue
         if "error" in m:
             raise core.HarnessError("model driver error: " + m["error"])
-        if not r["split_as_assumed"]:
-            ctx.count("excluded", "sqlglot join_condition chose different equi keys than the harness assumes")
+        if r.get("atoms") is None:
+            ctx.count("excluded", "reported equi-join conditions not parsable by the harness")
             continue
+        ctx.count("equi_split_as_harness_would_assume", bool(r["split_as_assumed"]))
         v = verdict(c, r)
         if v is not None:
             problems.append((c, v, True))
@@ -352,13 +428,19 @@ def compare(ctx, cases, drv):
     return problems
 
 
-def impl_fails(case):
+def impl_fails(case, key=None):
     case = normalise(case)
     r = run_impl_safe(case)
-    return "__error__" in r or verdict(case, r) is not None
+    if "__error__" in r:
+        return key is None or key.get("failure") == "real code raised"
+    v = verdict(case, r)
+    return v is not None and (key is None or failure_key(case, v) == key)
 
 
-def shrink(case):
+def shrink(case, key=None):
+    def fails(c):  # the same failure, not merely some failure
+        return impl_fails(c, key)
+
     cur = json.loads(json.dumps(case))
     budget = 40
     changed = True
@@ -371,7 +453,7 @@ def shrink(case):
                 cand = json.loads(json.dumps(cur))
                 del cand["tables"][ti][ri]
                 budget -= 1
-                if impl_fails(cand):
+                if fails(cand):
                     cur, changed = cand, True
         for k in range(len(cur["rules"]) - 1, -1, -1):
             if budget <= 0 or len(cur["rules"]) <= 1:
@@ -379,13 +461,33 @@ def shrink(case):
             cand = json.loads(json.dumps(cur))
             del cand["rules"][k]
             budget -= 1
-            if impl_fails(cand):
+            if fails(cand):
                 cur, changed = cand, True
     return normalise(cur)
 
 
+def absorption_shape(ast) -> bool:
+    """Some OR in the rule has a disjunct whose conjuncts strictly include another disjunct's (A OR (A AND C)): the shape on
+    which the installed sqlglot's join_condition/simplify returns A AND C (finding K13)."""
+    def disjuncts(a):
+        return disjuncts(a[1]) + disjuncts(a[2]) if a[0] == "or" else [a]
+
+    if ast[0] == "or":
+        sets = [frozenset(map(repr, conjuncts(d))) for d in disjuncts(ast)]
+        if any(x < y for x in sets for y in sets):
+            return True
+    return any(absorption_shape(x) for x in ast[1:] if isinstance(x, (tuple, list)) and x and x[0] in ("and", "or", "not"))
+
+
+def failure_key(case, what):
+    cls = classify(what)
+    if cls == "reported split is not the rule":
+        return {"failure": cls, "absorption_shape": absorption_shape(case["rule"]["ast"])}
+    return {"failure": cls}
+
+
 def classify(what):
-    for pat, cls in [("post-filter count", "post-filter count differs from scored pairs"), ("pre-filter count", "pre-filter count differs from block products"),
+    for pat, cls in [("are not the rule", "reported split is not the rule"), ("post-filter count", "post-filter count differs from scored pairs"), ("pre-filter count", "pre-filter count differs from block products"),
                      ("marginal counts", "marginal counts differ from match_key counts"), ("cumulative_rows/start", "cumulative totals inconsistent"),
                      ("cartesian", "cartesian differs from admissible pairs"), ("n_largest", "n_largest_blocks wrong"), ("real code raised", "real code raised")]:
         if pat in what:
@@ -452,17 +554,18 @@ def run(ctx: core.Ctx):
     broken = [(c, w) for c, w, conc in problems if not conc]
     reported = set()
     for c, w in concrete:
-        cls = classify(w)
-        if cls in reported or len(reported) >= 4:
+        key = failure_key(c, w)
+        kid = json.dumps(key, sort_keys=True)
+        if kid in reported or len(reported) >= 5:
             continue
-        reported.add(cls)
-        small = shrink(c)
+        reported.add(kid)
+        small = shrink(c, key)
         rr = run_impl_safe(small)
         what = (verdict(small, rr) if "pre" in rr else f"real code raised {rr['__error__']}: {rr['text'][:300]}") or w
         ctx.violation("real output violates C14: " + classify(what),
                       {"case": small, "rule_sql": rule_arg(small["rule"]), "rules_sql": [rule_arg(r) for r in small["rules"]], "observed": rr,
                        "expected": {k: (v if k != "blocks" else {str(a): b for a, b in v.items()}) for k, v in oracle(small).items()}, "detail": what},
-                      kind="concrete", match_info={"failure": classify(what), "asymmetric": not bg.symmetric(small["rule"]["ast"]) or any(not bg.symmetric(x["ast"]) for x in small["rules"]), "explicit_sd": small["explicit_sd"]})
+                      kind="concrete", match_info={**failure_key(small, what), "asymmetric": not bg.symmetric(small["rule"]["ast"]) or any(not bg.symmetric(x["ast"]) for x in small["rules"]), "explicit_sd": small["explicit_sd"]})
     if not concrete:
         if broken:
             c, w = broken[0]
